@@ -114,6 +114,29 @@ def run(ctx):
         hist += [["open", 0]]
         scs.append(scen(k, "truncate-last-inflight-%d" % k, streams, hist, True, truncate=True))
         k += 1
+    # a slow writer: a line arrives in two pieces, the pause between them spans several maintenance intervals (the idle file is
+    # re-opened and re-positioned meanwhile) -- in one run, and with a kill/restart inside the pause
+    for i in range(8 if thorough else 3):
+        n = ctx.rng.randint(2, 5)
+        slow = ctx.rng.randint(1, n)
+        streams = [ctx.rng.choice(["a", "a", "b"]) for _ in range(n)]
+        hist = [["open", 0]]
+        for j in range(1, n + 1):
+            if j == slow:
+                hist += [["append_begin", j], ["sleep", ctx.rng.choice([250, 400])], ["append_end", j]]
+            else:
+                hist += [["append", j]]
+        scs.append(scen(k, "slow-writer-%d" % k, streams, hist, ctx.rng.random() < 0.5, truncate=True))
+        k += 1
+    for i in range(4 if thorough else 2):
+        n = ctx.rng.randint(2, 4)
+        streams = ["a"] * n
+        hist = []
+        for j in range(1, n):
+            hist += [["append", j], ["act", j], ["deliver", j], ["commit", j]]
+        hist += [["save", 0], ["append_begin", n], ["sleep", 250], ["kill", 0], ["restart", 0], ["sleep", 250], ["append_end", n], ["open", 0]]
+        scs.append(scen(k, "slow-writer-kill-%d" % k, streams, hist, True))
+        k += 1
     # a new file that appears after the restart with the inode number of a file removed while down (offsets are loaded only for
     # files found at start: the new file must be read from its beginning)
     for i in range(4 if thorough else 2):
